@@ -138,13 +138,18 @@ CLAIMED.update({
                 note="'Promptly' is decided on matcher steps, not wall-clock time. One symbolic cell per input (two adjacent ones in thorough); edits inside identifiers that the parser hashes (operation names, dictionary keys, type keywords) are partly inconclusive and reported as such. Eight defects repaired (exponential string regex, non-ASCII numerics, and six internal-error escapes of the parser)."),
 })
 
+CLAIMED.update({
+    "C29": dict(cat="other", design="DESIGN.md §11.6 C29",
+                text="Unit-symbolic (M1) on names: a nested symbol-table skeleton (top module, named module, module nested in it, unnamed module; functions and plain ops inside) carries SYMBOLIC symbol names (one-cell symbolic text each, so the solver ranges over every equality pattern between the six names and the 1-3 components of the reference) and enumerated visibilities; a flat or nested reference is looked up from seven starting operations with SymbolTable.lookup_nearest_symbol_from (direct), SymbolTableCollection (cached, queried twice) and traits.SymbolTable.lookup_symbol; z3 decides for all names that each returns exactly the operation designated by a declarative reading of the nesting rules (nearest enclosing table; each further component resolved inside the previous result, which must be a table; private symbols reached through nesting refused) and that the three agree.",
+                note="Originally listed as not applicable ('only equality patterns of names'); with symbolic text the solver decides exactly those patterns, so it is claimed. Name uniqueness within a table (the verified-module precondition) is an assumption because the trait's verifier hashes names. The skeleton shape (4 tables, 6 symbols) is fixed."),
+})
+
 NOT_APPLICABLE = {
     "C05": "custom assembly formats: the quantifier is over ~80 dialects' op definitions/format programs; no data dimension for a solver beyond what C04/C06 cover for leaves (DESIGN §5)",
     "C17": "pass x corpus-module cross product: deciding it means running each pair concretely; no symbolic dimension (DESIGN §5)",
     "C24": "dominance/post-order over CFG shapes held in real successor tuples and dict[Block,set[Block]]: symbolic references concretise at first use as dict key, i.e. plain enumeration (DESIGN §5)",
     "C25": "liveness fixpoint under schedules: quantifier is over shapes and worklist permutations, no data dimension (DESIGN §5)",
     "C27": "PDL interpreted vs compiled: two tree-walking interpreters over concrete pattern IR with id-keyed maps; out of reach for symbolic references, patterns must be concrete (DESIGN §5)",
-    "C29": "symbol lookup depends only on name-equality patterns and nesting shape; no data dimension (DESIGN §5)",
 }
 
 PENDING_REASON = "designed (DESIGN §4) but its check is not yet built to a sound state in this round"
